@@ -176,10 +176,15 @@ def ref_diff_kind(a, b):
   return "element-style"
 
 
+import ttconv.style_properties as _styles
+
+
 def cases(prof):
   def strat(tier):
-    return st.builds(lambda spec, extra: {"spec": spec, "extra": extra}, gen_model.docspecs(prof),
-                     st.lists(st.fractions(0, 12, max_denominator=997), max_size=2))
+    # one document in four carries value-equal animation steps on two siblings (gen_model.equal_steps_on_siblings)
+    return st.builds(lambda spec, extra, eq: {"spec": gen_model.equal_steps_on_siblings(spec, _styles.NamedColors.red.value, False) if eq else spec,
+                                              "extra": extra}, gen_model.docspecs(prof),
+                     st.lists(st.fractions(0, 12, max_denominator=997), max_size=2), st.sampled_from([False, False, False, True]))
   return strat
 
 
